@@ -343,7 +343,13 @@ func c08Upload(rng *core.Rng) c08Op {
 		"/upload/", "/upload", "/upload/ch1/video/1.mp4", "/upload/ch1/video/.cmfv", "/upload/../../x/video/1.cmfv", "/other/ch1/video/1.cmfv", "/upload/ch1/Streams(.cmfv)", "/upload/ch1/Streams()"}
 	var body []byte
 	what := ""
-	switch rng.Intn(12) {
+	switch rng.Intn(15) {
+	case 12: // declared size that makes a 32-bit offset wrap around
+		body, what = append(c08Box(16, "free", []byte("12345678")), c08Box(0xFFFFFFF0, "free", []byte("xxxx"))...), "offset-wrap"
+	case 13:
+		body, what = c08Box(0xFFFFFFFF, "mdat", []byte("short")), "size-4GiB"
+	case 14:
+		body, what = append(c08Box(16, "styp", []byte("cmfscmfs")), c08Box(0x7FFFFFFF, "moof", bytes.Repeat([]byte{0}, 40))...), "size-2GiB-moof"
 	case 0:
 		what = "empty-body"
 	case 1:
